@@ -466,19 +466,25 @@ def check_raw(ck, raw, dec, pos):
         ck.need(isinstance(el, ast.Name), "_get_raw_xsrf_token: token element is not a local")
         kinds = []
         for d in rd.defs_at(nd, el.id):
-            if d.kind == "unpack" and d.index == p and d.arity == n and is_self_call(d.value, dec.name, 1):
-                arg = rd.expand(d.value.args[0], d.node)
+            dv = rd.expand(d.value, d.node) if d.kind == "unpack" and d.value is not None else d.value
+            if d.kind == "unpack" and d.index == p and d.arity == n and is_self_call(dv, dec.name, 1):
+                arg = dv.args[0]
                 if is_self_call(arg, "get_cookie") and arg.args:
                     kinds.append("cookie")
                     cookie_name = arg.args[0]
                 else:
                     kinds.append("decoded:" + q.unparse(arg)[:40])
+            elif d.kind == "unpack" and is_self_call(dv, dec.name, 1):
+                kinds.append("wrong-slot:%s" % d.index)  # understood: another position of the decoder's tuple
             elif d.kind == "assign" and isinstance(d.value, ast.Constant) and d.value.value is None:
                 kinds.append("none")
             elif d.kind == "assign" and isinstance(d.value, ast.Call) and q.dotted(d.value.func) in ("os.urandom", "secrets.token_bytes"):
                 kinds.append("random")
             else:
                 kinds.append("other:" + (q.unparse(d.value)[:40] if d.value is not None else d.kind))
+        unknown = [k for k in kinds if k.startswith("other:")]
+        if unknown:
+            raise AnalysisError("_get_raw_xsrf_token: cannot establish what the expected token may be: %s" % unknown[0])
         ok = "cookie" in kinds and all(k in ("cookie", "none", "random") for k in kinds)
         ck.ob("C24.token-position", raw, nd.ast, ok, "the expected token (position %d) is position %d of _decode_xsrf_token(<the _xsrf cookie>) or fresh randomness (definitions: %s)" % (p, p, sorted(set(kinds))))
     return cookie_name
@@ -586,6 +592,24 @@ def issuer_tables(ck, iss, raw, pos):
 
         v = fold_format(v)
 
+        def masked_of(x, depth=0):
+            """the mask variable when ``x`` is ``_websocket_mask(<mask var>, <raw token>)``, directly or through a local"""
+            if isinstance(x, ast.Call) and q.call_attr(x) == "_websocket_mask" and len(x.args) == 2 and isinstance(x.args[0], ast.Name) and is_tok(x.args[1]):
+                return x.args[0].id
+            if isinstance(x, ast.Name) and depth < 4:
+                d_ = rd.unique(nd, x.id)
+                if d_ is not None and d_.kind == "assign" and d_.value is not None and isinstance(d_.value, (ast.Call, ast.Name)):
+                    return masked_of(d_.value, depth + 1)
+            return None
+
+        def is_random(name, depth=0):
+            d_ = rd.unique(nd, name)
+            if d_ is None or d_.kind != "assign" or d_.value is None:
+                return False
+            if isinstance(d_.value, ast.Name) and depth < 4:
+                return is_random(d_.value.id, depth + 1)
+            return isinstance(d_.value, ast.Call) and q.dotted(d_.value.func) in ("os.urandom", "secrets.token_bytes")
+
         def is_tok(x):
             t = token_pos(rd.expand(x, nd), raw.name)
             return t is not None and t[0] == p and t[1] in (n, None)
@@ -595,15 +619,24 @@ def issuer_tables(ck, iss, raw, pos):
             maskvar = None
             codecs = {}
             for i, el in enumerate(v.args[0].elts):
+                for _d in range(3):  # an element held in an explaining local
+                    if not isinstance(el, ast.Name):
+                        break
+                    de = rd.unique(nd, el.id)
+                    if de is None or de.kind != "assign" or de.value is None:
+                        break
+                    el = de.value
                 h = hexcall(el, HEX_INV)
                 if isinstance(el, ast.Constant):
                     roles.append(("const", el.value))
-                elif h and isinstance(h[0], ast.Name):
+                elif h and masked_of(h[0]) is not None:
+                    roles.append(("masked", masked_of(h[0])))
+                    codecs[i] = h[1]
+                elif h and isinstance(h[0], ast.Name) and is_random(h[0].id):
                     roles.append(("mask", h[0].id))
                     codecs[i] = h[1]
-                elif h and isinstance(h[0], ast.Call) and q.call_attr(h[0]) == "_websocket_mask" and len(h[0].args) == 2 and isinstance(h[0].args[0], ast.Name) and is_tok(h[0].args[1]):
-                    roles.append(("masked", h[0].args[0].id))
-                    codecs[i] = h[1]
+                elif h:
+                    raise AnalysisError("xsrf_token: cannot tell what the hex-encoded element %s is" % q.unparse(el)[:80])
                 elif isinstance(strip_wrappers(el), ast.Call) and q.call_attr(strip_wrappers(el)) == "int":
                     roles.append(("ts", None))
                 else:
@@ -683,6 +716,7 @@ def check_tables(ck, iss, dec, it, dt):
             ck.need(fm is not None and fd is not None, "_decode_xsrf_token: mask / masked token are not hex-decoded fields of the split cookie")
             roles = enc["roles"]
             epos = {r: i for i, (r, _x) in enumerate(roles)}
+            ck.need("mask" in epos and "masked" in epos, "xsrf_token: the joined format has no recognisable mask / masked-token elements")
             ok = fm[0] == epos.get("mask") and fd[0] == epos.get("masked")
             ck.ob("C24.codec", dec, nd.ast, ok, "decoder takes the mask from field %d and the masked token from field %d; issuer writes them at %s and %s" % (fm[0], fd[0], epos.get("mask"), epos.get("masked")), construct="mask/masked positions")
             ck.ob("C24.codec", dec, nd.ast, fm[1] == fd[1] == len(roles) and _b(fm[2]) == _b(enc["sep"]) == _b(fd[2]), "decoder unpacks %d fields split on %r; issuer joins %d fields with %r" % (fm[1], fm[2], len(roles), enc["sep"]), construct="arity/separator")
